@@ -327,9 +327,107 @@ def r6b_exhaustive(ctx, roles=("yield:", "undeclared-use:", "locals:"), rule="R6
                            "analysing" % (f.id.split("::")[-1], sorted(_short(u) for u in d)))
         else:
             r.ok()
+    # ... and scans every statement list to its end: a `break` out of the loop over statements (after a `return` / `raise`, say)
+    # hides the rest of the block.  Python decides "generator" / "local name" by what occurs in the body, reachable or not
+    nl = 0
+    for role, f in sorted(vis.items()):
+        for g in [x for x in crate.real_fns() if x.root == f.root]:
+            for why, where in _stmt_loops_left_early(crate, g):
+                nl += 1
+                key = "R6b|%s|statement loop left early" % f.id
+                if why:
+                    r.violate(key, "%s leaves its loop over a statement list before the end (%s at %s): statements after that "
+                                   "point are not visited" % (f.id.split("::")[-1], why, where))
+                else:
+                    r.ok()
+    r.counts["statement_list_loops"] = nl
     r.floor("statement-list universe", len(uni), 15)
     r.floor("body visitors", len(vis), 2)
     return r
+
+
+def _stmt_loops_left_early(crate, g):
+    """for every iterator loop over statements in g: (reason or None, where)"""
+    from .r1e import natural_loops, _iterator_driven, _skip_goto
+    from .r5 import _skip_trivial, _reach
+    out = []
+    for h, latches, body in natural_loops(g):
+        if not _iterator_driven(g, h, body):
+            continue
+        hb = _skip_goto(g, h)
+        ht = g.blocks[hb]["t"]
+        if ht[0] != "call" or not (ht[1].get("res") or "").endswith("::next") or not ht[1]["args"]:
+            continue
+        it = op_local(ht[1]["args"][0])
+        if it is None or not re.search(r"\bStmt\b", g.local_ty(it)):
+            continue
+        d = place_local(ht[1]["dest"])
+        end = None
+        others = []
+        for b in sorted(body):
+            t = g.blocks[b]["t"]
+            for s2 in g.succs(b):
+                if s2 in body:
+                    continue
+                is_end = False
+                if t[0] == "switch" and op_local(t[1]) is not None:
+                    for dd in g.whole_defs(op_local(t[1])):
+                        if dd[0] == "assign" and dd[3][0] == "discr" and place_local(dd[3][1]) == d:
+                            is_end = True
+                if is_end and end is None:
+                    end = s2
+                else:
+                    others.append((b, s2))
+        if end is None:
+            continue
+        fall = _skip_empty(g, end)
+        bad = None
+        for b, s2 in others:
+            if g.blocks[s2]["t"][0] in ("resume", "abort", "unreachable"):
+                continue
+            if g.blocks[fall]["t"][0] == "ret" and not any(st[0] == "=" and not _unit_const(st) for st in g.blocks[fall]["s"]):
+                # nothing happens after the loop: a `return` from inside it is an early exit as well
+                tgt = _skip_empty(g, s2)
+                if tgt == fall:
+                    bad = ("early return", crate.span_str(_blk_span(g, b)))
+                continue
+            if _skip_empty(g, s2) == fall or _reach(g, s2, fall, set(body)):
+                bad = ("break", crate.span_str(_blk_span(g, b)))
+        out.append((bad[0] if bad else None, bad[1] if bad else ""))
+    return out
+
+
+def _unit_const(st):
+    rv = st[2]
+    return rv[0] == "use" and isinstance(rv[1], list) and rv[1][0] == "c" and isinstance(rv[1][1], dict) and rv[1][1].get("t") == "()"
+
+
+def _skip_empty(g, b, limit=16):
+    """the first block after b that assigns, calls, branches or returns (storage markers, drops and gotos are skipped)"""
+    while limit:
+        blk = g.blocks[b]
+        if any(st[0] == "=" and not _unit_const(st) for st in blk["s"]):
+            break
+        t = blk["t"]
+        if t[0] == "goto":
+            b = t[1]
+        elif t[0] == "drop":
+            b = g.succs(b)[0]
+        else:
+            break
+        limit -= 1
+    return b
+
+
+def _blk_span(g, b):
+    blk = g.blocks[b]
+    for s in reversed(blk["s"]):
+        if isinstance(s[-1], list) and len(s[-1]) == 5:
+            return s[-1]
+    t = blk["t"]
+    if t[0] == "call":
+        return t[1]["span"]
+    return [0, 0, 0, 0, ""]
 
 
 # name-binding fields (Python language reference, section 4.2.1 "Binding of names"), resolved against the AST types
@@ -630,4 +728,66 @@ def r6g_scope_seeds_after_collector(ctx):
                 else:
                     r.ok(sample={"in": f.id.split("::")[-1], "scope_map": "created empty, seeded after the collector"})
     r.floor("scope maps handed to the local-variable collector", n, 1)
+    return r
+
+
+def r6h_parameter_enumerators(ctx):
+    r = Result("R6h", "a function that enumerates the parameters of a function definition (reads two or more of the five name-carrying "
+                      "fields of `Arguments`) reads at least `posonlyargs`, `args` and `kwonlyargs`: keyword-only parameters after a "
+                      "bare `*` are declared parameters; an enumerator that forgets them offers them again in completion or flags "
+                      "them as undeclared")
+    from .. import sel
+    crate = ctx.bin
+    reads = defaultdict(set)
+    for f in crate.real_fns():
+        for b in f.blocks:
+            places = []
+            for st in b["s"]:
+                if st[0] == "=":
+                    places += [pl for pl in sel._rv_places(st[2]) if pl is not None]
+            if b["t"][0] == "call":
+                places += [op_place(a) for a in b["t"][1]["args"] if op_place(a) is not None]
+            for pl in places:
+                for o, nm in proj_fields(place_projs(pl)):
+                    if o.endswith("::Arguments") and nm in ARG_FIELDS:
+                        reads[f.root].add(nm)
+    n = 0
+    for root, fs in sorted(reads.items()):
+        if len(fs) < 2:
+            continue
+        n += 1
+        missing = [x for x in ("posonlyargs", "args", "kwonlyargs") if x not in fs]
+        key = "R6h|%s|lacks %s" % (root, "+".join(missing))
+        if missing:
+            r.violate(key, "%s enumerates parameters through %s but not %s" % (root.split("::")[-1], sorted(fs), missing))
+        else:
+            r.ok(sample={"enumerator": root.split("::")[-1], "fields": sorted(fs)})
+    r.floor("parameter enumerators", n, 1)
+    return r
+
+
+def r6i_locals_grow_only(ctx):
+    r = Result("R6i", "the local-variable collector (by role: the statement visitor that fills a `&mut HashMap<String, usize>`) only "
+                      "adds names: no remove / retain / clear / drain on the map in it. The map is flow-insensitive (name -> "
+                      "binding line, consulted for every use in the body), so a name taken out again (`del x`) un-shadows every "
+                      "use of it, the ones before the `del` too, and a local called like a fixture is reported as undeclared")
+    crate = ctx.bin
+    loc = [f for role, f in _visitor_by_role(ctx).items() if role.startswith("locals:")]
+    n = 0
+    for f in loc:
+        n += 1
+        bad = []
+        for g in [x for x in crate.real_fns() if x.root == f.root]:
+            for bb, c in g.calls():
+                res = c.get("res") or ""
+                if re.search(r"HashMap::<K, V, S(, A)?>::(remove|remove_entry|retain|clear|drain|extract_if)$", res) and c["args"]:
+                    a0 = op_local(c["args"][0])
+                    if a0 is not None and "HashMap<std::string::String, usize" in g.local_ty(a0):
+                        bad.append((res.split("::")[-1], crate.span_str(c["span"])))
+        key = "R6i|%s|names leave the local-variable map" % f.id
+        if bad:
+            r.violate(key, "%s takes names out of the map of locals (%s at %s)" % (f.id.split("::")[-1], bad[0][0], bad[0][1]))
+        else:
+            r.ok(sample={"collector": f.id.split("::")[-1]})
+    r.floor("local-variable collectors", n, 1)
     return r
